@@ -141,6 +141,10 @@ func (k msgServer) MsgLiquidateBorrow(c context.Context, msg *types.MsgLiquidate
 	liqThresholdBridgedAssetOne, _ := k.lend.GetAssetRatesParams(ctx, firstTransitAssetID)
 	liqThresholdBridgedAssetTwo, _ := k.lend.GetAssetRatesParams(ctx, secondTransitAssetID)
 	firstBridgedAsset, _ := k.asset.GetAsset(ctx, firstTransitAssetID)
+	// an e-mode pair has its own liquidation threshold (as in the LiquidateBorrows sweep)
+	if lendPair.IsEModeEnabled {
+		liqThreshold.LiquidationThreshold = liqThreshold.ELiquidationThreshold
+	}
 	// there are three possible cases
 	// 	a. if borrow is from same pool
 	//  b. if borrow is from first transit asset
